@@ -71,6 +71,9 @@ type c08ctx struct {
 // the flips / truncations / random inputs; thorough tier: see below.
 func (c *c08ctx) toCoq(in []byte, kind string, h [32]byte) bool {
 	cls := kindClass(kind)
+	if cls == "hdrblock:pairlen" && !c.run.Thorough() && h[1]%3 != 0 {
+		return false // the finder runs on all of them; the Coq model evaluates a third in the quick tier
+	}
 	structural := cls == "valid" || cls == "valid+garbage" || (len(cls) > 3 && cls[:4] == "len:") || (cls != "flip" && cls != "trunc" && cls != "random")
 	if c.run.Thorough() {
 		// thorough: everything below 1.5 kB, half of the rest below 20 kB, a sixth of the structural cases above
